@@ -47,3 +47,21 @@ fn c09_independent_builds_serialize_identically() {
         for b in &bufs[1..] { assert!(*b == bufs[0], "optimize={}: two builds of the same list serialize differently", optimize); }
     }
 }
+
+/// OBL C09.witness.tag_history_does_not_show
+#[test]
+fn c09_serialized_bytes_do_not_depend_on_tag_history() {
+    // "two engines built from the same rule sequence serialize to byte-identical buffers": also when one of them had tags switched on
+    // and off again in between (the enabled set is not part of the buffer; the active tagged list is rebuilt from it)
+    for optimize in [true, false] {
+        let fresh = Engine::from_rules_parametrised(rules(), ParseOptions::default(), true, optimize).serialize_raw().unwrap();
+        let mut e = Engine::from_rules_parametrised(rules(), ParseOptions::default(), true, optimize);
+        e.enable_tags(&["alpha", "t0", "t1"]);
+        e.disable_tags(&["t0"]);
+        e.use_tags(&["beta", "t2"]);
+        e.disable_tags(&["beta", "t2", "never"]);
+        let after = e.serialize_raw().unwrap();
+        assert!(after == fresh, "optimize={optimize}: the buffer depends on which tags were enabled and disabled before ({} vs {} bytes)", after.len(), fresh.len());
+        assert!(reload(&after) == after);
+    }
+}
